@@ -1,0 +1,42 @@
+//go:build verif
+
+// C01 (completeness half, owner: con-c01b): result SHAPE of the proof generators of the append-only hash tree, as far
+// as the client-side verifiers (VerifyInclusion / VerifyConsistency, contracts in zz_verif_contracts.go) demand it:
+//   VerifyInclusion(iproof, i, j, ..)   requires 1 <= i <= j and (i < j ==> len(iproof) > 0)
+//   VerifyConsistency(cproof, i, j, ..) requires 1 <= i <= j and (i < j ==> len(cproof) > 0)
+// The generators check `i > j` themselves (order); a proof between two different tree sizes has at least the node
+// of the highest set bit of j-1 (nonempty). `assigns internal`: the generators write tree-internal state only
+// (mutex, digest cache); this frame is ASSUMED for callers, it is not checked.
+package ahtree
+
+//@ func (*AHtree).InclusionProof
+//@   assigns internal
+//@   ensures order: err == nil ==> i <= j
+//@   ensures nonempty: err == nil && i < j ==> len(p) > 0
+
+//@ func (*AHtree).ConsistencyProof
+//@   assigns internal
+//@   ensures order: err == nil ==> i <= j
+//@   ensures nonempty: err == nil && i < j ==> len(p) > 0
+
+// The recursive workers. A proof is only ever extended (every step prepends to or appends the running proof), and the
+// step of the highest bit of j-1 always contributes one node: when the caller passes height = bit length of j-1
+// (InclusionProof / ConsistencyProof pass bits.Len64(j-1), >= 1 for j >= 2) the proof is not empty.
+// node / highestNode read tree nodes through the digest cache and the data log (tree-internal state only: assumed).
+//@ func (*AHtree).node
+//@   assigns internal
+
+//@ func (*AHtree).highestNode
+//@   assigns internal
+
+//@ func (*AHtree).inclusionProof
+//@   assigns internal
+//@   ensures nonempty: r1 == nil && 1 <= height && height <= 64 && (j-1)&(uint64(1)<<uint(height-1)) != 0 ==> len(r0) > 0
+//@   loop 1 invariant range: 1 <= height ==> -1 <= h && h < height
+//@   loop 1 invariant grown: h < height-1 && 1 <= height && height <= 64 && (j-1)&(uint64(1)<<uint(height-1)) != 0 ==> len(proof) > 0
+
+//@ func (*AHtree).consistencyProof
+//@   assigns internal
+//@   ensures nonempty: r1 == nil && 1 <= height && height <= 64 && (j-1)&(uint64(1)<<uint(height-1)) != 0 ==> len(r0) > 0
+//@   loop 1 invariant range: 1 <= height ==> -1 <= h && h < height
+//@   loop 1 invariant grown: h < height-1 && 1 <= height && height <= 64 && (j-1)&(uint64(1)<<uint(height-1)) != 0 ==> len(proof) > 0
